@@ -196,6 +196,27 @@ def run(tier):
                     rep.ok(key, "R07.ord", dict(combinations=n))
                 else:
                     rep.violated(key, "R07.ord", "%s does not hold for %s" % (text, tag), counterexample(cex) if cex else dict())
+    # R07.lex: the ordering of D>1 arrays / views recurses over the leading dimension: its lexicographical-compare primitive ranges over the operands'
+    # sub-view iterators (begin()/end()), whose elements are compared by the same operator one dimension down; a comparison of the flat elements()
+    # sequences instead is not "a proper prefix is smaller" when inner extents differ
+    for fn, level, D, cn, nm in fns:
+        if level != "container" or nm != "lt" or cn == "elements" or fn not in trees:
+            continue
+        tag = "D=%d:%s" % (D, cn)
+        sigs = sorted({a[1] for a in formula.atoms_of(trees[fn]) if isinstance(a, tuple) and len(a) == 3 and a[0] == "call" and "lexicographical_compare" in a[1]})
+        if not sigs:
+            rep.extra.setdefault("R07.lex_no_primitive", []).append(tag)
+            continue
+        nrel += 1
+        key = "R07.lex(%s)" % tag
+        flat = [x for x in sigs if "elements_iterator_t" in x or re.search(r"operator\(\)\([^)]*\*", x)]
+        sub = [x for x in sigs if "array_iterator" in x]
+        if D > 1 and (flat or not sub):
+            rep.violated("R07.lex(D>1:%s)" % cn, "R07.lex", "a < b (%s) compares the flat element sequences (%s) instead of recursing over the leading dimension: with different "
+                         "inner extents a row that is a proper prefix of the other operand's row is not smaller" % (tag, re.sub(r"^.*operator\(\)", "", (flat or sigs)[0])[:120]),
+                         dict(primitive=(flat or sigs)[0]))
+        else:
+            rep.ok(key, "R07.lex", dict(primitive=re.sub(r"^.*operator\(\)", "", sigs[0])[:100]))
     # swapped-operand relations need the trees of the swapped call: generate them by swapping argument values
     for fn, level, D, cn, nm in fns:
         if level != "container" or nm not in ("gt", "ge"):
